@@ -124,6 +124,59 @@ def t_fetch(ex):
     ex.oblige(f"{P}.raises.never_while_a_verified_file_is_in_place", g.st != GOOD, kind="exceptional-postcondition")
 
 
+def t_verify(ex):
+    """fetch.base.fetcher._verify against the file on disk (size -1 = absent) -- the contract the proof of fetch() relies on, here proved of the real
+    function: what counts as verified, as a resumable partial file, as unusable, as a checksum failure"""
+    import pkgcore.fetch.base as B
+    from pkgcore.fetch import errors, fetchable
+    from pyvc.models import Model
+    with_size, with_hash = bool(ex.choose(2)), bool(ex.choose(2))
+    P = f"C36._verify[{'size' if with_size else 'no size'}, {'hash' if with_hash else 'no hash'} recorded]"
+    actual, expected = KInt.fresh("size_on_disk"), KInt.fresh("recorded_size")
+    ex.assume(And(actual >= -1, expected >= 0))
+    hash_ok = bool(ex.choose(2))
+    chks = {}
+    if with_size:
+        chks["size"] = expected
+    if with_hash:
+        chks["sha256"] = "recorded-digest"
+    handlers = {k: Model((lambda it_, loc: actual) if k == "size" else (lambda it_, loc: "recorded-digest" if hash_ok else "other-digest"), f"handler[{k}]") for k in chks}
+    it = Interp(ex, label=P, models={B.get_handlers: lambda it_, c=None: dict(handlers),
+                                     B.get_chksums: lambda it_, loc, *names: [("recorded-digest" if hash_ok else "other-digest") for _ in names],
+                                     os.path.exists: lambda it_, p: actual != -1,
+                                     os.stat: lambda it_, p, **k: SObj(os.stat_result, {"st_size": actual})})
+    target = SObj(fetchable, {"filename": "f.tar", "uri": (), "chksums": chks})
+    ex.inputs.update({"size_on_disk": actual, "recorded_size": expected, "digest_matches": hash_ok})
+    out = call(it, it.target("src/pkgcore/fetch/base.py", "fetcher._verify"), SObj(B.fetcher, {}), "/dist/f.tar", target)
+    hash_fine = (not with_hash) or hash_ok
+    if not out.raised:
+        ex.cover("verifies")
+        ex.oblige(f"{P}.ensures.returns_only_for_a_present_file_of_the_recorded_size_and_digest",
+                  And(actual != -1, (actual == expected) if with_size else (actual > 0), hash_fine))
+        return
+    e = out.exc
+    cls = e.cls
+    if issubclass(cls, errors.MissingDistfile):
+        ex.cover("missing")
+        ex.oblige(f"{P}.raises.MissingDistfile_only_when_nothing_is_there", actual == -1, kind="exceptional-postcondition")
+    elif issubclass(cls, errors.ChksumFailure):
+        ex.cover("checksum failure")
+        ex.oblige(f"{P}.raises.ChksumFailure_only_for_an_oversized_file_or_a_wrong_digest",
+                  And(actual != -1, Or((actual > expected) if with_size else False, And((actual == expected) if with_size else (actual > 0), not hash_fine))), kind="exceptional-postcondition")
+    elif issubclass(cls, errors.FetchFailed):
+        resumable = bool(getattr(e.exc, "resumable", False))
+        ex.cover("resumable" if resumable else "unusable")
+        if resumable:
+            ex.oblige(f"{P}.raises.resumable_exactly_for_a_present_file_smaller_than_recorded", And(with_size, actual != -1, actual < expected), kind="exceptional-postcondition")
+        else:
+            ex.oblige(f"{P}.raises.unusable_only_for_an_empty_file_of_unrecorded_size", And(not with_size, actual == 0), kind="exceptional-postcondition")
+    else:
+        ex.oblige(f"{P}.raises.only_fetch_errors", False, kind="exceptional-postcondition")
+    # completeness: a present file of the recorded size and digest always verifies (an empty one too when the recorded size is 0)
+    ex.oblige(f"{P}.ensures.a_file_of_the_recorded_size_and_digest_always_verifies",
+              Not(And(actual != -1, (actual == expected) if with_size else (actual > 0), hash_fine)), kind="exceptional-postcondition")
+
+
 # -------------------------------------------------------- bounded enumeration ----
 def _simulate(attempts, n_uris, outcomes, initial, with_chksums):
     """run the real fetch() with a scripted external fetcher; returns (result, final_state)"""
@@ -193,7 +246,8 @@ def enum_fetch(seed):
 
 
 def tasks():
-    return [Task("C36.fetcher.fetch", t_fetch, [(FILE, "fetcher.fetch")], enumerate=enum_fetch)]
+    return [Task("C36.fetcher.fetch", t_fetch, [(FILE, "fetcher.fetch")], enumerate=enum_fetch),
+            Task("C36._verify", t_verify, [("src/pkgcore/fetch/base.py", "fetcher._verify")])]
 
 
 def replay_fetch(model):
